@@ -1346,13 +1346,16 @@ def _run_scenario(res, item):
     _, pol, kind, seed = item
     _ENGINE_READY = False  # scen.build() starts a fresh cluster / DB
     start = datetime(2021, 3, 30, 16, 0, 0) + timedelta(minutes=11 * (seed % 7))
-    step, n_steps = 60, 3
+    step, n_steps = 60, 4
     when = start + timedelta(seconds=step)
     targets = [
         scen.target_eci(10001, *scen.overhead_orbit(when, 10.0, 20.0, 900.0)),
         scen.target_eci(10002, *scen.overhead_orbit(when, 10.0, 50.0, 1200.0, heading_deg=45.0)),
         scen.target_eci(10003, *scen.overhead_orbit(when, 10.0, 35.0, 6000.0)),
         scen.target_eci(10004, *scen.overhead_orbit(when, -10.0, 200.0, 900.0)),
+        # low in the west of sensor 20001 and moving away: visible in the first step, below the horizon of BOTH sensors two
+        # steps later, while the target and sensor sets (the shape of every matrix) stay what they are
+        scen.target_eci(10005, *scen.overhead_orbit(when, 10.0, 20.0 - 24.5, 900.0, heading_deg=270.0)),
     ]
     sensors = [scen.ground_sensor(20001, 10.0, 20.0), scen.ground_sensor(20002, 10.0, 50.0)]
     rname, metrics = SCEN_REWARDS[kind]
@@ -1365,10 +1368,25 @@ def _run_scenario(res, item):
         rows = sc.database.getData(Query(Task))
     except Exception as exc:  # noqa: BLE001 - an exception out of the tasking step is a finding, not a harness error
         res.case("scenario/no_exception", {"policy": pol, "reward": kind}, False, signature=f"C07/scenario/{pol}/exception",
-                 observed=f"{type(exc).__name__}: {exc}", expected="3 tasking steps complete", item=item)
+                 observed=f"{type(exc).__name__}: {exc}", expected="the tasking steps complete", item=item)
         return
-    tids, sids = [10001, 10002, 10003, 10004], [20001, 20002]
+    tids, sids = [10001, 10002, 10003, 10004, 10005], [20001, 20002]
     t, s = len(tids), len(sids)
+    # independent notion of "cannot be visible": the TRUTH target more than 2 deg below the sensor's geocentric horizontal
+    # (elevation masks start at +1 deg, the estimate is within kilometres of the truth, geodetic vs geocentric vertical
+    # <= 0.2 deg) - from the stored truth rows, nothing of the tasking code
+    from resonaate.data.ephemeris import TruthEphemeris  # noqa: PLC0415
+
+    jd0 = float(sc.clock.julian_date_start)
+    pos = {(round((e.julian_date - jd0) * 86400.0), e.agent_id): np.array([e.pos_x_km, e.pos_y_km, e.pos_z_km])
+           for e in sc.database.getData(Query(TruthEphemeris))}
+
+    def geo_elevation(sec, tid, sid):
+        rs, rt = pos[(sec, sid)], pos[(sec, tid)]
+        d = rt - rs
+        return float(np.degrees(np.arcsin(np.clip(d @ rs / (np.linalg.norm(d) * np.linalg.norm(rs)), -1.0, 1.0))))
+
+    seen_before, set_transitions = set(), 0
     by_epoch = {}
     for r in rows:
         by_epoch.setdefault(round((r.julian_date - float(sc.clock.julian_date_start)) * 86400.0), []).append(r)
@@ -1390,6 +1408,15 @@ def _run_scenario(res, item):
                  expected=t * s, item=item)
         if not complete:
             continue
+        below = [(tids[i], sids[j], round(geo_elevation(sec, tids[i], sids[j]), 2)) for i in range(t) for j in range(s)
+                 if (sec, tids[i]) in pos and (sec, sids[j]) in pos and geo_elevation(sec, tids[i], sids[j]) < -2.0]
+        wrong = [b for b in below if vis[tids.index(b[0]), sids.index(b[1])] or dec[tids.index(b[0]), sids.index(b[1])]]
+        gone = {b[0] for b in below if all((b[0], sj, ) in {(x[0], x[1]) for x in below} for sj in sids)}
+        set_transitions += len(gone & seen_before)
+        res.case("scenario/visibility_vs_geometry", dict(case, pairs_below_horizon=len(below)), not wrong, nontrivial=bool(gone & seen_before),
+                 signature=f"C07/scenario/{pol}/visible_or_tasked_below_horizon", observed=wrong[:4],
+                 expected="visibility and decision False for a pair whose truth geometry is > 2 deg below the horizon", item=item)
+        seen_before |= {tids[i] for i in range(t) if vis[i].any()}
         masked = bool((rew[~vis] == 0.0).all())
         res.case("scenario/reward_masked_by_visibility", case, masked, signature="C07/scenario/reward_of_invisible_pair_nonzero",
                  observed=rew.tolist(), expected=vis.tolist(), item=item)
@@ -1412,6 +1439,9 @@ def _run_scenario(res, item):
                  outcome=f"visible={int(vis.sum())},tasked={int(dec.sum())},negative_rewards={int((rew < 0).sum() > 0)}", item=item)
         if pol != "random":  # later steps of a random-policy run depend on the draws; reproducibility is checked in _run_maskonly
             res.observe(vis, dec, np.round(rew, 9))
+    # the scenario is built so that a target seen in an early step is below every sensor's horizon later (same matrix shapes)
+    res.case("scenario/has_set_transition", {"policy": pol, "reward": kind}, set_transitions > 0, signature="C07/harness/no_target_sets_during_scenario",
+             observed=set_transitions, item=item)
 
 
 # ------------------------------------------------------------------------------------------------ configuration path
@@ -1711,7 +1741,7 @@ def _cfg_numeric(res, case0, it, kind, names, delta, reward, seed):
 CFG_POOL = "abc"
 CFG_SENSOR_IDS = (20001, 20002, 20003)
 CFG_SITES = ((10.0, 20.0), (10.0, 20.6), (10.5, 20.2))
-CFG_ENGINE_IDS = (5, 2, 9)  # deliberately not ascending
+CFG_ENGINE_IDS = (5, 0, 9)  # deliberately not ascending, and 0 is a legal engine id
 CFG_STEP, CFG_NSTEPS = 60, 3
 CFG_POLICY_ROT = ("munkres", "greedy", "random")
 # per-engine reward configurations of the scenario-level cases (rotated over the engines): single metric, repeated
@@ -1837,8 +1867,17 @@ def _cfg_engines(pattern, tp, variant, k, world, seed):
 def _cfg_build(world, engs):
     global _ENGINE_READY  # noqa: PLW0603
     _ENGINE_READY = False  # scen.build() starts a fresh cluster / DB
+    # one NEUTRAL task priority (factor 1.0: the documented reward is unchanged) per engine, addressed to that engine for
+    # the first target of its own list and active over the whole run: every engine must see its own event only - an
+    # engine handed another engine's event either scales the wrong row or does not know the target at all
+    events = []
+    if len(engs) >= 2:
+        for eng in engs:
+            events.append({"scope": "task_reward_generation", "scope_instance_id": eng["unique_id"], "start_time": scen.iso(world[0]),
+                           "end_time": scen.iso(world[0] + timedelta(seconds=(CFG_NSTEPS + 1) * CFG_STEP)), "event_type": "task_priority",
+                           "target_id": eng["targets"][0]["id"], "target_name": eng["targets"][0]["name"], "priority": 1.0, "is_dynamic": False})
     try:
-        return scen.build(scen.config(world[0], CFG_NSTEPS + 1, engs, physics=CFG_STEP)), None
+        return scen.build(scen.config(world[0], CFG_NSTEPS + 1, engs, physics=CFG_STEP, events=events or None)), None
     except Exception as exc:  # noqa: BLE001 - the refusal (or a crash) of the builder is what is being observed
         return None, (type(exc).__name__, f"{type(exc).__name__}: {exc}"[:300])
 
